@@ -290,6 +290,11 @@ impl Prop for C15 {
                     }
                 }
             }
+            other if kind == "unknown" && other.starts_with("ok:") && other.contains("Unknown") => {
+                // the session handed the solver's `unknown` to its caller as an Unknown response:
+                // that is the "(or an Unknown verdict)" the property allows
+                rec.label("raw-session:unknown-passed-through");
+            }
             other => {
                 // a verdict (or a completed raw session) although an answer was corrupted
                 return Err(Failure::new(
